@@ -1,10 +1,9 @@
 //@unit payments
 //@props C06
-// Conservation lemma for C06 (pure spec): the node-wide per-hash inequality follows from the per-update check
-// that NodeState::validate_payments performs with RoutedPayment::updated_incoming_outgoing and
-// Validator::validate_payment_balance (the latter is under contract in unit sv_commit), given that
-// NodeState::apply_payments records exactly the summaries that were validated.  The hash-map aggregation code
-// itself (hashbrown entry API, iterator sums) is outside Verus' subset and is NOT verified here.
+// Arithmetic core of C06 (pure spec): the per-update inequality checked by Validator::validate_payment_balance is
+// preserved when apply() records exactly the validated amounts.  The code that computes and records those amounts is
+// under contract in units pay_summary (per-channel summaries), node_payments (NodeState::validate_payments /
+// apply_payments, RoutedPayment) and sv_commit (validate_payment_balance); this unit keeps the two arithmetic lemmas.
 use vstd::prelude::*;
 verus! {
 
